@@ -8,8 +8,8 @@
   reversed-tie variant) — the theorems hold for every instance.
 -/
 import FcProofs.Props.C02
-namespace Fc.Witness
-open Fc Fc.Spec
+namespace Fc.C02.Witness
+open Fc Fc.C02 Fc.C02.Spec
 
 /-! ### kernel-reducible `argsort` instances -/
 
@@ -210,4 +210,4 @@ example : ladder argsortIns argsortInsRev hDemo {} wB wA =
     .done 3 ⟨true, [("p", "", .passed), ("c", "TRIANGLE", .passed)]⟩ := by
   decide +kernel
 
-end Fc.Witness
+end Fc.C02.Witness
